@@ -1169,6 +1169,10 @@ def rule_atom(env, shared):
         for (e, what, t) in _access_operands(env, u):
             terms.append((what, t))
         for what, t in terms:
+            # (the value a read-modify-write returns is the old content of the counter: it does not depend on the amount
+            #  operand, which may well be computed from a load — e.g. clamped to what is left)
+            t = rewrite(t, lambda x: (x[0], x[1], x[2], (), x[4]) if (x[0] == "atomic" and x[1] == "fetch_add" and len(x) > 4)
+                        else None)
             for x in subterms(t):
                 if x[0] == "atomic" and x[1] == "load":
                     role, adt = R.classify(x[2])
